@@ -421,7 +421,8 @@ class CModel:
 
     def notify(self):
         self.notified += 1
-        self.loop_alive = False
+        self.loop_alive = False      # = the protocol considers the peer side terminated
+        self.waiting = None
         self.backlog = []
         self.deliver(None)
 
@@ -607,11 +608,12 @@ def h_client_close(style: int, prestate: int, lc: int, pc: int, ops: List[int]):
                                 reached("client_crossing_closes")
                     M.local_closed = True
                     M.terminal = True
-                    if not M.st_closed:
-                        if M.sent is None:
-                            M.sent = ("local", variant)
-                        if M.waiting is None:
-                            M.waiting = M.now + 5
+                    if not M.st_closed and M.sent is None:
+                        M.sent = ("local", variant)
+                    # the closing timeout runs whenever the peer side has not terminated from the protocol's point
+                    # of view - also when an EOF / close frame sits unnoticed behind a backpressured message
+                    if M.loop_alive and M.waiting is None:
+                        M.waiting = M.now + 5
                 if variant == 0:
                     conn.close()
                 elif variant == 1:
@@ -666,8 +668,11 @@ def h_client_close(style: int, prestate: int, lc: int, pc: int, ops: List[int]):
             else:
                 env.advance(5)
                 M.now += 5
-                if M.waiting is not None and M.now >= M.waiting and not M.st_closed:
-                    reached("client_closing_timeout_abort")
+                if M.waiting is not None and M.now >= M.waiting:
+                    # closing timeout: we tear down; frames not yet received (queued behind an unread message)
+                    # are dropped, so a peer close frame among them was never "received"
+                    if not M.st_closed:
+                        reached("client_closing_timeout_abort")
                     M.st_closed = True
                     M.aborted = True
                     M.waiting = None
@@ -687,7 +692,7 @@ def h_client_close(style: int, prestate: int, lc: int, pc: int, ops: List[int]):
         drain_reads()
         env.advance(100)
         M.now += 100
-        if M.waiting is not None and not M.st_closed:
+        if M.waiting is not None:
             M.st_closed = True
             M.aborted = True
             M.waiting = None
